@@ -97,3 +97,8 @@ Proof.
   intros Hin. assert (H := generated_all_sane). rewrite forallb_forall in H.
   apply (H (name, e) Hin).
 Qed.
+
+(* a list of generated estimators whose shapes all pass the sanity test *)
+Lemma list_sane (l : list (String.string * estimator)) : forallb (fun p => est_sane (snd p)) l = true ->
+  forall name e, In (name, e) l -> est_sane e = true.
+Proof. intros H name e Hin. rewrite forallb_forall in H. exact (H (name, e) Hin). Qed.
